@@ -103,6 +103,7 @@ type c08Reading struct {
 	alloc     uint64
 	openErr   bool // the error came from Reader() itself (no message started)
 	guardFire bool
+	afterErr  string // what one more Read on the failed reader did ("" = it failed again)
 }
 
 // The harness's own buffers are allocated once, outside the measured window.
@@ -139,6 +140,7 @@ func c08ReadOne(conn *websocket.Conn, api string) (r c08Reading) {
 			}
 			if err != nil {
 				r.err = err
+				r.afterErr = xportReadAfterError(rd)
 				return
 			}
 		}
@@ -222,6 +224,10 @@ func c08One(c *fw.Ctx, cs c08Case) {
 		} else {
 			if r.err == nil {
 				c.Violate("C08/over-limit-reported-complete/"+cs.Comp+"/"+m.Framing, fmt.Sprintf("%s: %s exceeds the limit but the read ended cleanly after %d bytes", desc, where, len(r.data)), cs)
+				return
+			}
+			if r.afterErr != "" {
+				c.Violate("C08/over-limit-reported-complete/"+cs.Comp+"/read-after-failure", fmt.Sprintf("%s: %s exceeds the limit and its read failed (%v), but the next Read on the same reader %s", desc, where, r.err, r.afterErr), cs)
 				return
 			}
 			if int64(len(r.data)) > L+1 {
